@@ -1,0 +1,14 @@
+//go:build !verif
+
+// Package verifhook provides named yield points for the verification harness in /verif.
+// Without the build tag "verif" they compile to nothing.
+package verifhook
+
+// Enabled tells whether yield points are compiled in.
+const Enabled = false
+
+// Set is a no-op without the verif build tag.
+func Set(func(string)) {}
+
+// Point is a no-op without the verif build tag.
+func Point(string) {}
